@@ -25,6 +25,7 @@ def parseCode (s : String) : Option Code :=
   else if s == "connreset" then some 1003
   else if s == "epipe" then some 1004
   else if s == "deadline" then some 1005
+  else if s == "othertmp" then some 1006
   else if s == "other" then some 2000
   else if s == "ctx" then some 2001
   else if s == "closed" then some 2002
@@ -38,6 +39,7 @@ def showCode (c : Code) : String :=
   else if c == 1003 then "connreset"
   else if c == 1004 then "epipe"
   else if c == 1005 then "deadline"
+  else if c == 1006 then "othertmp"
   else if c == 2000 then "other"
   else if c == 2001 then "ctx"
   else if c == 2002 then "closed"
@@ -48,7 +50,9 @@ context.DeadlineExceeded reports Temporary() = true -/
 def retriable (c : Code) : Bool :=
   Gen.temporaryCodes.contains c ||
   Gen.transientNet.any (fun t => parseCode t == some c) ||
-  c == 1005
+  c == 1005 ||
+  -- an error without a name of its own that declares itself Temporary() (hook token "othertmp")
+  c == 1006
 
 def idOf (pre : String) (s : String) : Option Nat :=
   if s.startsWith pre then (s.drop pre.length).toString.toNat? else none
@@ -70,6 +74,10 @@ def parseMsg (s : String) : Option MDecl :=
     let size ← sz.toNat?
     let part ← p.toInt?
     some { key := k, size := size, topic := dash t, part := part }
+  | [k, sz, t, p, sh] => do
+    let size ← sz.toNat?
+    let part ← p.toInt?
+    some { key := k, size := size, topic := dash t, part := part, shape := sh }
   | _ => none
 
 def parseCall (s : String) : Option (CDecl × String) :=
@@ -82,18 +90,25 @@ def parseCall (s : String) : Option (CDecl × String) :=
     some ({ id := id, caller := ca, seq := sq, msgs := ms }, ptr)
   | _ => none
 
+/-- the header carries the Writer's options as configured (0 = left unset); the limits in force are the defaults of the
+accessors `batchSize()` / `batchBytes()` / `maxAttempts()` (Model: `effBatchSize` …, tied to the source by
+`C08.defaults_match_source`) -/
 def parseCfg (s : String) : Option MCfg :=
-  match words s with
-  | [_, _, _, bs, bb, ma, a, c, t] => do
+  let mk (bs bb ma a c t lg : String) : Option MCfg := do
     let bs ← bs.toNat?
     let bb ← bb.toNat?
     let ma ← ma.toNat?
-    some { bs := bs, bb := bb, ma := ma, async := a == "1", compl := c == "1", topic := dash t }
+    let lg ← lg.toNat?
+    some { bs := effBatchSize bs, bb := effBatchBytes bb, ma := effMaxAttempts ma, async := a == "1", compl := c == "1",
+           topic := dash t, linger := lg }
+  match words s with
+  | [_, _, _, bs, bb, ma, a, c, t] => mk bs bb ma a c t "0"
+  | [_, _, _, bs, bb, ma, a, c, t, lg] => mk bs bb ma a c t lg
   | _ => none
 
 def modelCfg (c : MCfg) : Cfg :=
   { batchSize := c.bs, batchBytes := c.bb, maxAttempts := c.ma, async := c.async, completion := c.compl,
-    topic := c.topic, retriable := retriable }
+    topic := c.topic, retriable := retriable, linger := c.linger }
 
 def callOfPtr (sc : Scenario) (p : String) : Option Nat := (sc.ptrs.find? (·.1 == p)).map (·.2)
 
@@ -138,6 +153,7 @@ def resolvePW (s : State) (tp : TP) (msgs : List Msg) : Nat :=
 def parseEvent (sc : Scenario) (s : State) (txt : String) : Option Event :=
   match words txt with
   | ["W.Enter", ok] => (parseBool ok).map Event.enter
+  | ["T.Tick", t] => t.toNat?.map Event.tick
   | ["W.Empty"] => some .empty
   | ["W.Begin", p, n] => do
     let c ← callOfPtr sc p
@@ -256,7 +272,24 @@ def predict (sc : Scenario) (obs : Obs) (evs : List String) (s : State) : String
     | none => [])
   let cbs := sortBy (fun (a b : String × String) => keyNum a.1 < keyNum b.1 || (keyNum a.1 == keyNum b.1 && a.2 < b.2)) cbs
   let orDash (l : List String) := if l.isEmpty then "-" else ";".intercalate l
-  s!"ret {orDash rets} | log {orDash logs} | cb {orDash (cbs.map (fun x => x.1 ++ " " ++ x.2))} | unsent 0 | multi 0 | stuck 0 | stats {predictStats s evs} | early 0"
+  -- every record that reached a broker (journal: all attempts) arrives as the message was given: the declared shape
+  let ids := (s.journal.flatMap (fun j => match s.batches j.batch with
+    | some B => B.msgs.map (fun m => msgKey sc m.msg)
+    | none => [])).eraseDups
+  let shapes := sortBy (fun (a b : String) => a < b)
+    (ids.map (fun k => k ++ ":" ++ (match findMsg sc.calls k with | some d => d.2.2.shape | none => "?")))
+  -- Completion(nil) hands out the messages with Topic / Partition / Offset of the acknowledged copy: the LAST copy of the
+  -- batch in its partition's log (no attempt follows an acknowledged one)
+  let lastIdx (l : List LogEntry) (m : Msg) : Nat :=
+    ((l.zipIdx).foldl (fun acc x => if x.1.msg == m then x.2 else acc) 0)
+  let wheres := sortBy (fun (a b : String) => a < b) (s.batchIds.flatMap (fun b =>
+    match s.batches b with
+    | some B =>
+      if B.ncompl ≥ 1 && B.cbCode == some 0 then
+        B.msgs.map (fun m => s!"{msgKey sc m.msg}:{B.tp.1}/{B.tp.2}@{lastIdx (s.log B.tp) m.msg}")
+      else []
+    | none => []))
+  s!"ret {orDash rets} | log {orDash logs} | cb {orDash (cbs.map (fun x => x.1 ++ " " ++ x.2))} | unsent 0 | multi 0 | stuck 0 | stats {predictStats s evs} | early 0 | shapes {orDash shapes} | where {orDash wheres}"
 
 /-- the fake broker's journal, from the environment events of the trace -/
 def journalOf (evs : List String) : List JReq :=
@@ -266,9 +299,28 @@ def journalOf (evs : List String) : List JReq :=
       part.toInt?.map (fun p => { topic := topic, part := p, keys := (if keys == "-" then [] else keys.splitOn ","), out := out })
     | _ => none)
 
-def parseObs (s : String) : Option Obs :=
-  match s.splitOn " | " with
-  | [rets, logs, cbs, unsent, multi, stuck, stats, early] => do
+def parseShapes (x : String) : Option (List (String × String)) :=
+  let b := (((x.drop "shapes".length).toString).trimAscii).toString
+  if b == "-" then some [] else (b.splitOn ";").mapM (fun e =>
+    match e.splitOn ":" with
+    | [k, sh] => some (k, sh)
+    | _ => none)
+
+def parseWheres (x : String) : Option (List (String × (String × Int) × Nat)) :=
+  let b := (((x.drop "where".length).toString).trimAscii).toString
+  if b == "-" then some [] else (b.splitOn ";").mapM (fun e =>
+    match e.splitOn ":" with
+    | [k, loc] =>
+      match loc.splitOn "@" with
+      | [tp, off] =>
+        match tp.splitOn "/" with
+        | [t, p] => do some (k, (t, ← p.toInt?), ← off.toNat?)
+        | _ => none
+      | _ => none
+    | _ => none)
+
+def parseObs8 (rets logs cbs unsent multi stuck stats early : String) (shapes : List (String × String))
+    (wheres : List (String × (String × Int) × Nat) := []) : Option Obs := do
     let body (pre x : String) : String := ((x.drop pre.length).toString.trimAscii).toString
     let rt := body "ret" rets
     let rets ← (if rt == "-" then some [] else (rt.splitOn ";").mapM (fun r =>
@@ -290,7 +342,15 @@ def parseObs (s : String) : Option Obs :=
       | _ => none))
     let num (pre x : String) : Option Nat := (body pre x).toNat?
     some { rets := rets, logs := logs, cbs := cbs, unsent := ← num "unsent" unsent, multi := ← num "multi" multi, stuck := ← num "stuck" stuck,
-           stats := body "stats" stats, early := ← num "early" early }
+           stats := body "stats" stats, early := ← num "early" early, shapes := shapes, wheres := wheres }
+
+def parseObs (s : String) : Option Obs :=
+  match s.splitOn " | " with
+  | [rets, logs, cbs, unsent, multi, stuck, stats, early] => parseObs8 rets logs cbs unsent multi stuck stats early []
+  | [rets, logs, cbs, unsent, multi, stuck, stats, early, shapes] => do
+    parseObs8 rets logs cbs unsent multi stuck stats early (← parseShapes shapes)
+  | [rets, logs, cbs, unsent, multi, stuck, stats, early, shapes, wheres] => do
+    parseObs8 rets logs cbs unsent multi stuck stats early (← parseShapes shapes) (← parseWheres wheres)
   | _ => none
 
 def answer (model : String) (holds : Bool) : String :=
@@ -320,7 +380,7 @@ def handle (line : String) : String :=
         let accepted : List (String × Nat) := sc.ptrs.filterMap (fun (ptr, cid) =>
           if isAccepted (retOf obs cid) then (sc.calls.find? (·.id == cid)).map (fun d => (ptr, d.msgs.length)) else none)
         let c08 := holdsC08 mc sc.calls j obs && closedWhenFull mc.bs mc.bb sizeOf tev && detachedGetsPut tev && timerDetachOk tev &&
-          attemptedAll tev accepted
+          attemptedAll tev accepted && lingerOk mc.linger tev
         let c07 := holdsC07 sc.calls j obs && putInsideSection tev
         let c01 := holdsC01 mc sc.calls j obs && batchOnce tev && timerDetachOk tev
         let holds :=
